@@ -551,6 +551,12 @@ class UncertainNumber:
         new_un = UncertainNumber.fromConstruct(new_cons)
         return pass_down_units(self, other, ops, new_un, reflected=reflected)
 
+    def __neg__(self):
+        """unary minus: the negated construct with the same unit"""
+        new_un = UncertainNumber.fromConstruct(-self._construct)
+        new_un.physical_quantity = -self._physical_quantity
+        return new_un
+
     def __add__(self, other):
         """add two uncertain numbers"""
         return self.bin_ops(other, operator.add)
